@@ -105,7 +105,7 @@ def hp_angles(nside):
             j = pp % (4 * nside) + 1
             s = (i - nside + 1) % 2
             z = 4. / 3 - 2. * i / (3 * nside)
-            phi = np.pi / (2 * nside) * (j - s / 2.)
+            phi = np.pi / (2 * nside) * (j - 1 + s / 2.)   # s = 1: ring shifted by half a pixel; s = 0: first pixel at phi = 0
         else:                                          # south cap
             ps = npix - p
             ph_ = ps / 2.
